@@ -345,6 +345,79 @@ pub fn run(run: &Run) {
             }
         }
     });
+    // a string against itself plus k more characters (length differences around every power of two up to 2^17, and multiples of 256)
+    run.par("prefix_plus_k_pairs", true, |tid, n, l| {
+        let mut ks: Vec<usize> = (1..=17u32).flat_map(|b| [(1usize << b) - 1, 1 << b, (1 << b) + 1]).collect();
+        ks.extend([768usize, 1280, 3 << 16, 1 << 20]);
+        let bases: Vec<String> = ["correct horse", "a", "correct horse battery staple correct horse battery staple correct horse battery staple"].iter().map(|s| s.to_string()).collect();
+        let mut idx = 0usize;
+        for base in &bases {
+            for k in &ks {
+                for extra in ['x', '\u{e9}', ' '] {
+                    idx += 1;
+                    if idx % n != tid || (extra != 'x' && *k > 70_000) {
+                        continue;
+                    }
+                    if run.stopped() {
+                        return;
+                    }
+                    let tail: String = std::iter::repeat(extra).take(*k).collect();
+                    let longer = format!("{base}{tail}");
+                    let longer2 = format!("{base}{tail}y");
+                    for p in PROFS {
+                        for (x, y) in [(&longer, base), (base, &longer), (&longer2, &longer)] {
+                            l.cases += 1;
+                            if let Err(v) = check_pair(run, p, x, y, l) {
+                                run.violate(Violation::new(json!({"op": "compare_prefix_plus_k", "profile": p.name(), "base": base, "extra": extra.to_string(), "k": k, "first_chars": x.chars().count(), "second_chars": y.chars().count()}), v.expected, v.observed));
+                                return;
+                            }
+                        }
+                    }
+                }
+            }
+        }
+    });
+    // equal up to the number of spaces: every gap / the lead / the tail inflated to n spaces (length ratios up to 10000 : 1), and
+    // all-space strings of those lengths against a short partner
+    run.par("space_inflated_pairs", true, |tid, n, l| {
+        let ns: Vec<usize> = (1..=12usize).chain([31, 32, 33, 63, 64, 65, 70, 71, 72, 73, 74, 100, 143, 144, 145, 199, 200, 255, 256, 257, 300, 1000, 4096, 10_000, 70_000]).collect();
+        let mut idx = 0usize;
+        for base in ["a b", "a", "x y z", "\u{e9} \u{fc}", "Foo Bar"] {
+            for k in &ns {
+                idx += 1;
+                if idx % n != tid {
+                    continue;
+                }
+                let sp = " ".repeat(*k);
+                let variants = [base.replace(' ', &sp), format!("{sp}{base}"), format!("{base}{sp}"), format!("{sp}{}{sp}", base.replace(' ', &sp)), sp.clone(), base.replace(' ', &"\u{3000}".repeat(*k))];
+                for v2 in &variants {
+                    for p in PROFS {
+                        for (x, y) in [(base, v2.as_str()), (v2.as_str(), base), (v2.as_str(), "a")] {
+                            l.cases += 1;
+                            if let Err(v) = check_pair(run, p, x, y, l) {
+                                run.violate(v);
+                                return;
+                            }
+                        }
+                    }
+                }
+            }
+        }
+    });
+    {
+        let mut all = mark_neighbour_strings(1);
+        all.extend(mark_neighbour_strings(2));
+        battery(run, "mark_neighbours", &all, &|s, l| {
+            let partner = crate::ucd::nfkc_icu(&ref_lower(s));
+            for p in [Prof::Nick, Prof::UserMapped, Prof::Opaque] {
+                if let Err(v) = check_pair(run, p, s, &partner, l) {
+                    run.violate(v);
+                    return false;
+                }
+            }
+            true
+        });
+    }
     // distinct equal-length strings that collide under common 32-bit hashes must still compare as different
     run.par("fingerprint_collisions", true, |tid, _n, l| {
         if tid != 0 {
@@ -398,6 +471,21 @@ pub fn replay(run: &Run, case: &Value) -> Check {
             let base: String = "correct horse battery staple ".chars().cycle().take(case["base_chars"].as_u64().unwrap() as usize).collect();
             let longer = format!("{base}{}", case["extra"].as_str().unwrap());
             if case["longer_first"].as_bool().unwrap() { check_pair(run, p, &longer, &base, &mut l) } else { check_pair(run, p, &base, &longer, &mut l) }
+        }
+        Some("compare_prefix_plus_k") => {
+            let base = case["base"].as_str().unwrap();
+            let extra = case["extra"].as_str().unwrap().chars().next().unwrap();
+            let mk = |chars: u64| -> String {
+                let b = base.chars().count() as u64;
+                let k = case["k"].as_u64().unwrap();
+                let mut s: String = base.to_string();
+                s.extend(std::iter::repeat(extra).take((chars.saturating_sub(b)).min(k) as usize));
+                if chars > b + k {
+                    s.push('y');
+                }
+                s
+            };
+            check_pair(run, p, &mk(case["first_chars"].as_u64().unwrap()), &mk(case["second_chars"].as_u64().unwrap()), &mut l)
         }
         Some("laws") => check_laws(run, p, &jget_str(case, "a").unwrap(), &jget_str(case, "b").unwrap(), &jget_str(case, "c").unwrap(), &mut l),
         _ => check_pair(run, p, &jget_str(case, "a").unwrap(), &jget_str(case, "b").unwrap(), &mut l),
